@@ -74,7 +74,10 @@ pub const ACTION_QUEUE_LEN: usize = 8;
 type ActionQueue<'a, T> =
     ArrayDeque<QueuedAction<'a, T>, ACTION_QUEUE_LEN, arraydeque::behavior::Wrapping>;
 type Delay = u16;
-pub(crate) type QueuedAction<'a, T> = Option<(KCoord, Delay, &'a Action<'a, T>)>;
+/// The last item is the layers that remain to be searched by a transparent action within the
+/// queued action, for actions that know it. `None` means the layers below the current one.
+pub(crate) type QueuedAction<'a, T> =
+    Option<(KCoord, Delay, &'a Action<'a, T>, Option<LayerStack>)>;
 
 const REAL_KEY_ROW: u8 = 0;
 
@@ -822,7 +825,7 @@ impl<'a, T: std::fmt::Debug> WaitingState<'a, T> {
                 .unwrap_or(0);
             if let Some(action) = config.get_chord(chord_mask) {
                 let coord = get_coord_for_chord(chord_mask);
-                let _ = action_queue.push_back(Some((coord, delay, action)));
+                let _ = action_queue.push_back(Some((coord, delay, action, None)));
             } else {
                 end -= 1;
                 // shrink from end until something is found, or have checked up to and including
@@ -836,7 +839,7 @@ impl<'a, T: std::fmt::Debug> WaitingState<'a, T> {
                         .unwrap_or(0);
                     if let Some(action) = config.get_chord(chord_mask) {
                         let coord = get_coord_for_chord(chord_mask);
-                        let _ = action_queue.push_back(Some((coord, delay, action)));
+                        let _ = action_queue.push_back(Some((coord, delay, action, None)));
                         break;
                     }
                     end -= 1;
@@ -1289,16 +1292,21 @@ impl<'a, const C: usize, const R: usize, T: 'a + Copy + std::fmt::Debug> Layout<
                     self.oneshot.pause_input_processing_delay;
             }
         }
-        if let Some(Some((coord, delay, action))) = self.action_queue.pop_front() {
+        if let Some(Some((coord, delay, action, layer_stack))) = self.action_queue.pop_front() {
             // If there's anything in the action queue, don't process anything else yet - execute
             // everything. Otherwise an action may never be released.
-            return self.do_action(
-                action,
-                coord,
-                delay,
-                false,
-                &mut self.trans_resolution_layer_order().into_iter().skip(1),
-            );
+            return match layer_stack {
+                Some(layer_stack) => {
+                    self.do_action(action, coord, delay, false, &mut layer_stack.into_iter())
+                }
+                None => self.do_action(
+                    action,
+                    coord,
+                    delay,
+                    false,
+                    &mut self.trans_resolution_layer_order().into_iter().skip(1),
+                ),
+            };
         }
         self.queue.iter_mut().for_each(Queued::tick_qd);
         self.last_press_tracker.tick_lpt();
@@ -2025,7 +2033,16 @@ impl<'a, const C: usize, const R: usize, T: 'a + Copy + std::fmt::Debug> Layout<
                     // assertions.
                     self.default_layer as u16,
                 ) {
-                    action_queue.push_back(Some((coord, 0, ac)));
+                    // A transparent action inside a case must keep searching below the layer
+                    // this switch was found on. Searching from the top again could find this
+                    // same switch again (layer held twice, or reached through a transparent key
+                    // of a higher layer) and never end.
+                    action_queue.push_back(Some((
+                        coord,
+                        0,
+                        ac,
+                        Some(layer_stack.clone().collect()),
+                    )));
                 }
                 // Switch is not properly repeatable. This has to use the action queue for the
                 // purpose of proper Custom action handling, because a single switch action can
